@@ -28,6 +28,90 @@ def run(fx, rep, tier):
     rule_movegen(fx, rep)
     rule_repscan(fx, rep)
     rule_key(fx, rep)
+    rule_filter(fx, rep)
+
+
+def rule_filter(fx, rep):
+    """C17-FILTER. The move-text parser reads every long-algebraic move a legal game can contain. A rejecting adaptor
+    (nom `verify`, `map_opt`, `map_res`) wrapped around the whole (source, destination, promotion) triple is a semantic filter
+    inside the parser; its predicate is evaluated (loop-free evaluation through in-crate helpers, pC16.bits_eval) on every
+    triple some legal game contains: queen-line and knight-jump (source, destination) pairs without promotion, and the
+    pawn steps onto the last rank (straight and both diagonals, both colours) with each of the four promotion pieces. A triple
+    the predicate refuses makes the parser stop in front of that move, the rest of the line is left over and the whole
+    position command is dropped. A predicate outside the evaluated fragment is not decided (note, no alarm)."""
+    import pC16
+    um = fx.find("parser::uci_move")
+    if not um:
+        rep.notes.append("C17-FILTER: no `uci_move` parser function; not decided")
+        rep.rule("C17-FILTER", 0, 0, True, "not decided")
+        return
+    um = um[0]
+    bodies = [um] + [fx.body(c) for c in sorted(fx.callgraph().get(um.name, ())) if "uci::parser::" in c and fx.body(c) is not None and fx.body(c).kind in ("Fn", "AssocFn")]
+    filters = []
+    for b in bodies:
+        seen = set()
+        for conds, ret, last in decision_paths(b, 16):
+            for e in ([ret] if ret is not None else []) + [c for c, _ in conds]:
+                for node in walk(e):
+                    if isinstance(node, tuple) and node and node[0] == "call" and isinstance(node[1], str) and node[1].startswith("nom::combinator::") \
+                            and node[1].split("::")[-1] in ("verify", "map_opt", "map_res") and len(node[2]) == 2:
+                        cl = node[2][1]
+                        if isinstance(cl, tuple) and cl[0] == "agg" and str(cl[1]).startswith("closure:") and (node[1], cl[1]) not in seen:
+                            seen.add((node[1], cl[1]))
+                            filters.append((b, node[1].split("::")[-1], fx.body(str(cl[1])[len("closure:"):])))
+    ppk = fx.adt("piece::PromotionPieceKind")
+    kinds = [v["discr"] for v in ppk["variants"]]
+    n, ok = 0, True
+    for (b, comb, cb) in filters:
+        if cb is None or cb.arg_count != 2:
+            continue
+        pty = cb.locals[2]["ty"]
+        if not (pty.count("square::Square") == 2 and "PromotionPieceKind" in pty and pty.lstrip("&").startswith("(")):
+            continue  # not a filter over the whole move triple
+        if comb != "verify":
+            rep.notes.append(f"C17-FILTER: `{comb}` over the whole move triple in `{b.name}`: accepted set not evaluated; not decided")
+            continue
+        sq = lambda f, r: pC16.bits_eval(fx, ("call", fx.one("Square::from_idxs").name, (("const", f), ("const", r))), {})
+        if sq(0, 0) is None or fx.find("Square::from_idxs") is None:
+            rep.notes.append("C17-FILTER: `Square::from_idxs` is not a closed formula; not decided")
+            continue
+        triples = []
+        for f1 in range(8):
+            for r1 in range(8):
+                for f2 in range(8):
+                    for r2 in range(8):
+                        df, dr = abs(f1 - f2), abs(r1 - r2)
+                        if (df, dr) == (0, 0):
+                            continue
+                        if df == 0 or dr == 0 or df == dr or (df, dr) in ((1, 2), (2, 1)):
+                            triples.append(((f1, r1), (f2, r2), None))
+                        if df <= 1 and (r1, r2) in ((6, 7), (1, 0)):
+                            triples.extend(((f1, r1), (f2, r2), kd) for kd in kinds)
+        refused, undecided = None, False
+        for (a, d, kd) in triples:
+            val = (sq(*a), sq(*d), pC16.Opt(kd is not None, kd))
+            v = pC16.eval_body(fx, cb, {2: val})
+            if v is None:
+                undecided = True
+                break
+            n += 1
+            if v == 0:
+                refused = (a, d, kd)
+                break
+        if undecided:
+            rep.notes.append(f"C17-FILTER: the predicate `{cb.name}` is outside the evaluated fragment; not decided")
+            continue
+        good = refused is None
+        rep.obligation(good)
+        if not good:
+            ok = False
+            name = lambda q: "abcdefgh"[q[0]] + str(q[1] + 1)
+            letter = "" if refused[2] is None else {v["discr"]: v["name"] for v in ppk["variants"]}[refused[2]].lower()
+            rep.violation("C17-FILTER", f"C17-FILTER/{norm(b.name).split('::')[-1]}", f"`{b.name}` wraps the (source, destination, promotion) triple in `{comb}` with the predicate `{cb.name}`, which refuses "
+                          f"{name(refused[0])}{name(refused[1])}{(' promoting to ' + letter) if letter else ''} - a move legal games contain: the parser stops in front of that move text and the whole position command is dropped",
+                          {"fn": b.name, "file": b.file, "line": b.line})
+    rep.sample({"rule": "C17-FILTER", "rejecting_adaptors_over_the_move_triple": [(b.name, comb, cb.name if cb else None) for (b, comb, cb) in filters], "triples_evaluated": n})
+    rep.rule("C17-FILTER", n, 0, ok, "no predicate inside the move-text parser refuses a move that legal games contain")
 
 
 def rule_key(fx, rep):
@@ -520,7 +604,16 @@ def rule_match(fx, rep):
 P = "src/engine/uci/parser.rs"
 MVR = "src/engine/uci/move.rs"
 SQ = "src/chess/square.rs"
+_IMP = ("    combinator::{eof, map, opt, value},", "    combinator::{eof, map, opt, value, verify},")
+_TUP = "        tuple((uci_square, uci_square, opt(uci_promotion))),\n        |(src, dst, promotion)| UciMove {"
 MUTANTS = [
+    {"name": "move parser accepts a promotion suffix only on a straight push (seed C17-7b)", "expect": "C17-FILTER/uci_move",
+     "edits": [(P, _IMP[0], _IMP[1]),
+               (P, "fn uci_move(input: &str)", "fn is_promotion_step(src: Square, dst: Square) -> bool {\n    src.file() == dst.file() && matches!((src.rank(), dst.rank()), (crate::chess::square::Rank::R7, crate::chess::square::Rank::R8) | (crate::chess::square::Rank::R2, crate::chess::square::Rank::R1))\n}\n\nfn uci_move(input: &str)"),
+               (P, _TUP, "        verify(tuple((uci_square, uci_square, opt(uci_promotion))), |(src, dst, promotion)| promotion.is_none() || is_promotion_step(*src, *dst)),\n        |(src, dst, promotion)| UciMove {")]},
+    {"name": "move parser refuses a promotion suffix unless the destination is on a last rank (input hardening)", "benign": True,
+     "edits": [(P, _IMP[0], _IMP[1]),
+               (P, _TUP, "        verify(tuple((uci_square, uci_square, opt(uci_promotion))), |(_src, dst, promotion)| promotion.is_none() || matches!(dst.rank(), crate::chess::square::Rank::R8 | crate::chess::square::Rank::R1)),\n        |(src, dst, promotion)| UciMove {")]},
     {"name": "castling word toggled again for a right that is already gone (seed C17-6b)", "expect": "C17-KEY/PAIR/try_remove_castle_rights",
      "edits": [("src/chess/game.rs", "        if !castle_rights.can_castle_to_side(castle_rights_side) {\n            return;\n        }\n", "        let _ = castle_rights.can_castle_to_side(castle_rights_side);\n")]},
     {"name": "repetition scan skipped for clocks up to four (seed C17-5b)", "expect": "C17-REPSCAN/early-return",
